@@ -23,7 +23,8 @@ TRACE = ("server/bptkServer.py", "BPTK_Py/bptk.py", "scenariorunners/sd_runner.p
 CRITICAL = ("is_locked", "lock", "unlock", "run_step", "progress", "release_lock")
 INTERLEAVING_MEASURE = ("distinct sequences of (task, function) over entries into is_locked/lock/unlock/"
                         "run_step/progress of bptk.py and bptkServer.py during the concurrent phase")
-RULE = ("a run = one instance with a live session + 2-3 concurrent step-advancing requests (kinds: run-step, "
+RULE = ("a run = either a sequential choreography of held streaming responses (open / read n chunks / close late) mixed with "
+        "stepping requests and session restarts, or one instance with a live session + 2-3 concurrent step-advancing requests (kinds: run-step, "
         "run-steps(n), stream-steps consumed fully, stream-steps closed after m chunks, optionally an injected "
         "exception in the j-th step; invalid requests: JSON without a required key, malformed JSON, no JSON) executed under one schedule (random(p), pct(d), single-pre-emption sweep or "
         "default); non-trivial = at least one task switch happened at a source-line pre-emption point while two "
@@ -38,7 +39,7 @@ ASSUMPTIONS = ["code outside the traced files is atomic between two pre-emption 
                "request loss/duplication not injected: no property promises idempotent retry",
                "sampling over schedules, not proof; the single-pre-emption sweep is complete only for the sampled request pairs"]
 FAULT_KINDS = ["preemption", "client_disconnect", "step_exception", "invalid_request"]
-PROBES = ["invalid_request_sent", "disconnect_mid_stream", "exception_mid_request",
+PROBES = ["held_stream", "late_close_of_finished_stream", "session_restarted_during_choreography", "invalid_request_sent", "disconnect_mid_stream", "exception_mid_request",
           "refused_while_locked", "stream_completed", "preempted_inside_run_step"]
 EXHAUSTIVE = {"quick": False, "thorough": False}
 
@@ -131,6 +132,11 @@ def plan(tier, verif_seed):
         ks = [rng.choice(PAIR_KINDS + ["results", "keep_alive"]) for _ in range(3)]
         yield {"i": i, "mode": "random", "kinds": ks, "seed": derive_seed(verif_seed, PROPERTY, i)}
         i += 1
+    # 3b. sequential choreographies with HELD responses: streams that are opened, read a few chunks at a time and closed
+    #     late, with other requests (also end-session/begin-session) issued in between
+    for j in range(400 if tier == "quick" else 4000):
+        yield {"i": i, "mode": "choreo", "seed": derive_seed(verif_seed, PROPERTY, "choreo", j), "keep_sample": j == 0}
+        i += 1
     if tier != "thorough":
         return
     # 4. complete single-pre-emption sweep for every ordered pair of the five basic kinds
@@ -152,8 +158,72 @@ def plan(tier, verif_seed):
         i += 1
 
 
+def gen_choreo_pattern(rng):
+    """choreographies built around windows in which a lock can be released by the wrong party"""
+    step = lambda: {"a": "req", "kind": rng.choice(["run_step", "run_steps", "stream_full"]), "n": 2}
+    opt = lambda x: [x] if rng.random() < 0.5 else []
+    k = rng.randrange(4)
+    if k == 0:      # a finished stream is closed late, after another multi-step request took the lock
+        return ([{"a": "open", "h": "s0"}, {"a": "read", "h": "s0", "n": None}] + opt({"a": "req", "kind": "new_session"})
+                + [{"a": "open", "h": "s1"}] + opt({"a": "read", "h": "s1", "n": rng.choice([1, 2, 3])})
+                + [{"a": "close", "h": "s0"}, step()] + opt(step()) + [{"a": "read", "h": "s1", "n": None}, {"a": "close", "h": "s1"}, step()])
+    if k == 1:      # the session is restarted while a stream is in progress
+        return ([{"a": "open", "h": "s0"}, {"a": "read", "h": "s0", "n": rng.choice([1, 2, 4])}, {"a": "req", "kind": "new_session"}, step()]
+                + opt({"a": "read", "h": "s0", "n": 2}) + [step(), {"a": "read", "h": "s0", "n": None}, {"a": "close", "h": "s0"}, step()])
+    if k == 2:      # refused requests while a stream is in progress must not release its lock
+        return ([{"a": "open", "h": "s0"}, {"a": "read", "h": "s0", "n": rng.choice([1, 2, 3])}, step(), step()]
+                + opt({"a": "open", "h": "s1"}) + [step(), {"a": "read", "h": "s0", "n": None}, {"a": "close", "h": "s0"}, step()])
+    # a stream abandoned by its client (closed early), then others
+    return ([{"a": "open", "h": "s0"}, {"a": "read", "h": "s0", "n": rng.choice([1, 2, 3])}, {"a": "close", "h": "s0"}, step(),
+             {"a": "open", "h": "s1"}, step(), {"a": "close", "h": "s1"}, step()])
+
+
+def gen_choreo(rng):
+    if rng.random() < 0.35:
+        return gen_choreo_pattern(rng)
+    acts = []
+    handles = {}          # name -> "open" | "exhausted" | "closed"
+    n_handles = 0
+    for _ in range(rng.randint(4, 12)):
+        openh = [h for h, st in handles.items() if st == "open"]
+        unclosed = [h for h, st in handles.items() if st != "closed"]
+        r = rng.random()
+        if r < 0.22 and n_handles < 3:
+            h = "s%d" % n_handles
+            n_handles += 1
+            handles[h] = "open"
+            acts.append({"a": "open", "h": h})
+        elif r < 0.45 and openh:
+            h = rng.choice(openh)
+            n = rng.choice([1, 2, 3, None])
+            acts.append({"a": "read", "h": h, "n": n})
+            if n is None:
+                handles[h] = "exhausted"
+        elif r < 0.58 and unclosed:
+            h = rng.choice(unclosed)
+            handles[h] = "closed"
+            acts.append({"a": "close", "h": h})
+        elif r < 0.66:
+            acts.append({"a": "req", "kind": "new_session"})      # end-session followed by begin-session
+        elif r < 0.72:
+            acts.append({"a": "req", "kind": rng.choice(["results", "keep_alive"])})
+        else:
+            k = rng.choice(["run_step", "run_step", "run_steps", "stream_full"])
+            acts.append({"a": "req", "kind": k, "n": rng.choice([2, 3])})
+    for h, st in handles.items():
+        if st == "open":
+            acts.append({"a": "read", "h": h, "n": None})
+        if st != "closed":
+            acts.append({"a": "close", "h": h})
+    return acts
+
+
 def generate(spec):
     rng = random.Random(spec["seed"])
+    if spec["mode"] == "choreo":
+        c = base_case([], {"kind": "default"}, pre=rng.choice([0, 1]), stop=float(rng.choice([8, 12, 16])), adapter=rng.choice([None, None, "plain"]))
+        c["choreo"] = gen_choreo(rng)
+        return c
     clients = [client_of(k, rng) for k in spec["kinds"]]
     pre = rng.choice([0, 1, 2])
     stop = float(rng.choice([6, 8, 9, 12]))
@@ -192,7 +262,163 @@ def _parse_stream_parts(parts):
     return steps
 
 
+def _locked_error(status, body):
+    return status != 200 and isinstance(body, dict) and "lock" in str(body.get("error", ""))
+
+
+def execute_choreo(case):
+    """sequential choreography with held streaming responses.  Oracle (the property read sequentially): a
+    step-advancing request issued while a multi-step response is in progress (opened and accepted, not yet
+    exhausted, not closed) is refused; one issued while none is in progress is accepted."""
+    log = EventLog()
+    res = RunResult()
+    cfg = case["config"]
+    log.add("case", case["choreo"])
+    with ServerWorld({"model": cfg["model"], "adapter": cfg.get("adapter"), "threads": "serial"}, log, res) as w:
+        w.boot()
+        r = w.post("/start-instance", {"timeout": {"minutes": 10}})
+        inst = r.body["instance_uuid"]
+        r = w.post("/%s/begin-session" % inst, BEGIN)
+        for j in range(cfg.get("pre", 0)):
+            w.post("/%s/run-step" % inst, {"settings": {}}, tag="pre%d" % j)
+        held = {}        # name -> dict(resp, it, state, accepted)
+        resets = 0
+        stepped_any = False
+
+        def in_progress():
+            return [h for h, d in held.items() if d["accepted"] and d["state"] == "open"]
+
+        def judge(n, what, status, body, prog):
+            refused = _locked_error(status, body)
+            accepted = status == 200 and not (isinstance(body, dict) and "error" in body)
+            if prog and not refused:
+                res.violate("C18.a-accepted-while-multistep-in-progress", {"action": n, "request": what, "status": status,
+                                                                          "in_progress": prog, "choreo": case["choreo"][:n + 1][-6:]})
+            if not prog and not accepted:
+                res.violate("C18.f-lock-not-released", {"action": n, "request": what, "status": status, "body": str(body)[:120],
+                                                        "after": [a for a in case["choreo"][:n]][-5:]})
+
+        def pull(d, tag):
+            prev = w.cur_req
+            w.cur_req = tag
+            try:
+                return next(d["it"])
+            finally:
+                w.cur_req = prev
+
+        try:
+            for n, a in enumerate(case["choreo"]):
+                log.add("act", n, a)
+                if a["a"] == "open":
+                    prog = in_progress()
+                    client = w.app.test_client()
+                    prev = w.cur_req
+                    w.cur_req = "h" + a["h"]
+                    try:
+                        rr = client.open("/%s/stream-steps" % inst, method="POST", json={"settings": {}}, buffered=False)
+                    finally:
+                        w.cur_req = prev
+                    it = iter(rr.response)
+                    first = None
+                    try:
+                        first = next(it)
+                    except StopIteration:
+                        pass
+                    except Exception:
+                        pass
+                    first = first.decode() if isinstance(first, bytes) else first
+                    body = None
+                    if first is not None and first.strip().startswith("{"):
+                        try:
+                            body = json.loads(first)
+                        except Exception:
+                            body = None
+                    accepted = rr.status_code == 200 and not (isinstance(body, dict) and "error" in body)
+                    held[a["h"]] = {"resp": rr, "it": it, "state": "open", "accepted": accepted}
+                    res.probe("held_stream")
+                    judge(n, "stream-steps(open)", rr.status_code, body if body is not None else {}, prog)
+                    if not accepted:
+                        held[a["h"]]["state"] = "exhausted"
+                elif a["a"] == "read":
+                    d = held.get(a["h"])
+                    if d is None or d["state"] != "open":
+                        continue
+                    cnt = 0
+                    while a["n"] is None or cnt < a["n"]:
+                        try:
+                            pull(d, "h" + a["h"])
+                            cnt += 1
+                        except StopIteration:
+                            d["state"] = "exhausted"
+                            break
+                        except Exception:
+                            d["state"] = "exhausted"
+                            break
+                elif a["a"] == "close":
+                    d = held.get(a["h"])
+                    if d is None or d["state"] == "closed":
+                        continue
+                    if d["state"] == "exhausted":
+                        res.probe("late_close_of_finished_stream")
+                    try:
+                        d["resp"].close()
+                    except Exception:
+                        pass
+                    d["state"] = "closed"
+                else:
+                    kind = a["kind"]
+                    prog = in_progress()
+                    if kind == "new_session":
+                        w.post("/%s/end-session" % inst)
+                        w.post("/%s/begin-session" % inst, BEGIN)
+                        resets += 1
+                        res.probe("session_restarted_during_choreography")
+                    elif kind == "results":
+                        w.get("/%s/session-results" % inst)
+                    elif kind == "keep_alive":
+                        w.post("/%s/keep-alive" % inst)
+                    elif kind == "run_step":
+                        rr = w.post("/%s/run-step" % inst, {"settings": {}}, tag="q%d" % n)
+                        judge(n, "run-step", rr.status, rr.body, prog)
+                    elif kind == "run_steps":
+                        rr = w.post("/%s/run-steps" % inst, {"settings": {}, "numberSteps": a.get("n", 2)}, tag="q%d" % n)
+                        judge(n, "run-steps", rr.status, rr.body, prog)
+                    elif kind == "stream_full":
+                        rr, _, parts = w.stream("/%s/stream-steps" % inst, {"settings": {}}, tag="q%d" % n)
+                        judge(n, "stream-steps", rr.status, rr.body if rr.body is not None else {}, prog)
+                if res.violations:
+                    break
+            # the steps of one held stream are contiguous among all steps unless the session was restarted in between
+            if not res.violations and resets == 0:
+                events = [e for e in w.step_events if e[4]]
+                order = [e[1] for e in events]
+                for h in held:
+                    idx = [k for k, t in enumerate(order) if t == "h" + h]
+                    if idx and idx != list(range(idx[0], idx[0] + len(idx))):
+                        res.violate("C18.a-interleaved", {"request": "h" + h, "kind": "stream", "intruders": sorted({order[k] for k in range(idx[0], idx[-1] + 1)} - {"h" + h})})
+                befores = [e[2] for e in events]
+                dup = sorted({t for t in befores if befores.count(t) > 1})
+                if dup:
+                    res.violate("C18.c-time-twice", {"times": dup})
+            if not res.violations and not in_progress():
+                fr = w.post("/%s/run-step" % inst, {"settings": {}}, tag="followup")
+                if fr.status != 200:
+                    res.violate("C18.f-lock-not-released", {"status": fr.status, "body": fr.body, "after": ["choreography"]})
+        finally:
+            for d in held.values():
+                try:
+                    d["resp"].close()
+                except Exception:
+                    pass
+    res.sim_units = len(case["choreo"])
+    res.nontrivial = len(held) > 0 and len(case["choreo"]) > 3
+    res.digest = log.digest()
+    return res
+
+
 def execute(case):
+    if case.get("choreo") is not None:
+        return execute_choreo(case)
     log = EventLog()
     res = RunResult()
     cfg = case["config"]
@@ -418,6 +644,16 @@ def execute(case):
 # ------------------------------------------------------------------ shrinking, findings
 
 def shrink(case):
+    if case.get("choreo") is not None:
+        for cand in shrink_list(case["choreo"], min_len=1):
+            c = copy.deepcopy(case)
+            c["choreo"] = copy.deepcopy(cand)
+            yield c
+        if case["config"].get("pre"):
+            c = copy.deepcopy(case)
+            c["config"]["pre"] = 0
+            yield c
+        return
     yield from shrink_sched(case)
     # fewer clients (only with default/random schedules: replay lists name task ids)
     if len(case["clients"]) > 2:
